@@ -17,22 +17,6 @@ import (
 
 func goldenRoot() string { return filepath.Join(os.Getenv("VERIF_ROOT"), "golden") }
 
-func kekFromFile(path string) (*countingAEAD, error) {
-	b, err := os.ReadFile(path)
-	if err != nil {
-		return nil, err
-	}
-	h, err := insecurecleartextkeyset.Read(keyset.NewJSONReader(bytes.NewReader(b)))
-	if err != nil {
-		return nil, err
-	}
-	a, err := aead.New(h)
-	if err != nil {
-		return nil, err
-	}
-	return &countingAEAD{inner: a}, nil
-}
-
 type goldenMeta struct {
 	Vals   map[string][]byte `json:"vals"`
 	MaxVer int               `json:"maxver"`
@@ -59,7 +43,7 @@ func TestGenGolden(t *testing.T) {
 	os.WriteFile(filepath.Join(out, "test-kek.cleartext.json"), kb.Bytes(), 0o644)
 	r := vh.Rand(4242)
 	for k := 0; k < vh.EnvInt("VERIF_N", 12); k++ {
-		kek, err := kekFromFile(filepath.Join(out, "test-kek.cleartext.json"))
+		kek, err := KEKFromFile(filepath.Join(out, "test-kek.cleartext.json"))
 		if err != nil {
 			t.Fatal(err)
 		}
@@ -134,7 +118,7 @@ func TestGolden(t *testing.T) {
 		if meta.MaxVer > maxver {
 			maxver = meta.MaxVer
 		}
-		kek, err := kekFromFile(filepath.Join(root, "test-kek.cleartext.json"))
+		kek, err := KEKFromFile(filepath.Join(root, "test-kek.cleartext.json"))
 		if err != nil {
 			t.Fatal(err)
 		}
